@@ -455,8 +455,24 @@ def check_views(d, lst, cls):
                 return "container equals one with the last pair missing"
             if len(lst) > 1 and lst[0] != lst[-1]:
                 other = cls([lst[-1]] + lst[1:-1] + [lst[0]])
-                if d == other:
+                if d == other or not (d != other):
                     return "container equals one with first/last swapped"
+            # the same pairs grouped by key: every key keeps its values in order, only
+            # the interleaving of different keys changes
+            grouped = sorted(lst, key=lambda p: str(p[0]))
+            if grouped != lst:
+                other = cls(grouped)
+                if d == other or not (d != other) or other == d or not (other != d):
+                    return ("container equals one whose pairs are interleaved "
+                            f"differently ({grouped!r})")
+                # ... and one level down: as the value of a pair of an outer container
+                if cls([("k", d)]) == cls([("k", other)]) or \
+                        not (cls([("k", d)]) != cls([("k", other)])):
+                    return ("outer containers compare equal although their nested "
+                            f"containers differ in the order of pairs ({grouped!r})")
+            if not (cls([("k", d)]) == cls([("k", twin)])) or \
+                    cls([("k", d)]) != cls([("k", twin)]):
+                return "outer containers with equal nested containers compare unequal"
         else:
             if d == cls([("a", 1)]):
                 return "empty container equals a non-empty one"
